@@ -130,10 +130,15 @@ def oracle(op, out):
         if w:
             return w
         last = out.split(" | ")[0].split(",")[-1]
-        if last != a[4]:
-            return f"last response {last}, the standard demands {a[4]}"
-        if a[4].startswith("80") and " | store: - | log: -" not in out and a[5:] == []:
-            pass
+        want, _, after = a[4].partition("~")
+        if last != want:
+            return f"last response {last}, the standard demands {want}"
+        if after:
+            # what the node must hold and what the write callbacks must have been told when all is over
+            # (the refused transfer contributes nothing)
+            if f" | store: {after} | log: {after}" not in out:
+                return (f"after the refused transfer the node holds / the callbacks were told "
+                        f"{out.split(' | ', 1)[1]}, expected store and log {after}")
         return None
     return c02.oracle(op, out)
 
@@ -224,7 +229,7 @@ def gen_ops(tier, rng):
         for k in range(nseg):
             frames = [bytes([0x40]) + mux(0x2200, 3) + bytes(4)] + seg_up_frames(k, k)
             yield (f"srvx {ods} - {','.join(c04.hx(f) for f in frames)} "
-                   f"{abort_hex(0x2200, 3, CODES['toggle'])}")
+                   f"{abort_hex(0x2200, 3, CODES['toggle'])}~-")
         for k in range(nseg):
             frames = [bytes([0x21]) + mux(0x2200, 3) + n.to_bytes(4, "little")]
             for i in range(k + 1):
@@ -232,7 +237,7 @@ def gen_ops(tier, rng):
                 chunk = val[7 * i:7 * i + 7]
                 frames.append(bytes([t | (7 - len(chunk)) << 1 | int(7 * i + 7 >= n)]) + chunk.ljust(7, b"\0"))
             yield (f"srvx {ods} - {','.join(c04.hx(f) for f in frames)} "
-                   f"{abort_hex(0x2200, 3, CODES['toggle'])}")
+                   f"{abort_hex(0x2200, 3, CODES['toggle'])}~-")
         # the same after a history: an earlier transfer with an odd number of segments (completed or abandoned),
         # then a new transfer (download with / without size indication, upload) whose FIRST segment has toggle 1
         if n > 7:
@@ -240,12 +245,13 @@ def gen_ops(tier, rng):
             pre_dn = [bytes([0x21]) + mux(0x2200, 3) + (5).to_bytes(4, "little"),
                       bytes([0x00 | (2 << 1) | 1]) + val[:5].ljust(7, b"\0")]                      # one segment, complete
             for pre in (pre_up, pre_dn):
+                held = "-" if pre is pre_up else f"{0x2200}.3={c04.hx(val[:5])}"
                 for init in (bytes([0x21]) + mux(0x2200, 3) + n.to_bytes(4, "little"),
                              bytes([0x20]) + mux(0x2200, 3) + bytes(4)):
                     seg = bytes([0x10 | (7 - min(n, 7)) << 1 | int(n <= 7)]) + val[:7].ljust(7, b"\0")
                     frames = pre + [init, seg]
                     yield (f"srvx {ods} - {','.join(c04.hx(f) for f in frames)} "
-                           f"{abort_hex(0x2200, 3, CODES['toggle'])}")
+                           f"{abort_hex(0x2200, 3, CODES['toggle'])}~{held}")
                 frames = pre + [bytes([0x40]) + mux(0x2200, 3) + bytes(4), bytes([0x70]) + bytes(7)]
                 yield (f"srvx {ods} - {','.join(c04.hx(f) for f in frames)} "
                        f"{abort_hex(0x2200, 3, CODES['toggle'])}")
